@@ -481,7 +481,7 @@ def parts(tier):
         Part("nsec3", run_nsec3, strategy=nsec3_cases(), n={"quick": 1500, "thorough": 40000},
              shards={"quick": 2, "thorough": 8}),
         Part("zone", run_zone, strategy=zone_cases(), n={"quick": 2000, "thorough": 50000},
-             require={"delegation": 200, "glue": 100, "empty-non-terminal": 100, "occluded-at-cut": 50, "wildcard": 100,
+             require={"delegation": 200, "glue": 50, "empty-non-terminal": 100, "occluded-at-cut": 50, "wildcard": 100,
                       "chain-checked": 500, "nsec-multi-window": 100, "relativize": 200, "absolute": 200, "apex-only": 5},
              shards={"quick": 8, "thorough": 16}),
     ]
